@@ -504,15 +504,32 @@ class VarsManager(object):
         :param name_list: List of strings. Name of the variables.
         :param cplx: Boolean. Whether the variables are complex or real.
         """
+        def exists(name):
+            return (name + "r" if cplx else name) in self.variables
+
+        def is_trainable(name):
+            if cplx:
+                return (
+                    name + "r" in self.trainable_vars
+                    or name + "i" in self.trainable_vars
+                )
+            return name in self.trainable_vars
+
         tmp_list = []
         head_list = []
         for name in name_list:
             for add_list in self.same_list:
-                if name not in self.variables:
+                if not exists(name):
                     continue
                 if name in add_list:
                     tmp_list += add_list
-                    head_list += [add_list[0]]
+                    # the member that is still trainable represents the group
+                    head = add_list[0]
+                    for i in add_list:
+                        if is_trainable(i):
+                            head = i
+                            break
+                    head_list += [head]
                     self.same_list.remove(add_list)
                     break
 
@@ -527,7 +544,7 @@ class VarsManager(object):
             if i not in name_list:
                 name_list.append(i)
 
-        def same_real(name_list):
+        def same_real(name_list, all_names):
             name_list = [i for i in name_list if i in self.variables]
             if len(name_list) == 0:
                 return
@@ -543,12 +560,26 @@ class VarsManager(object):
                             self.trainable_vars.remove(name_list[0])
             for name in name_list:
                 self.variables[name] = var
+            # the other members of merged groups follow the new head
+            for name in all_names:
+                if name in self.variables:
+                    self.variables[name] = var
 
         if cplx:
-            same_real([name + "r" for name in new_name_list])
-            same_real([name + "i" for name in new_name_list])
+            same_real(
+                [name + "r" for name in new_name_list],
+                [name + "r" for name in name_list],
+            )
+            same_real(
+                [name + "i" for name in new_name_list],
+                [name + "i" for name in name_list],
+            )
         else:
-            same_real(new_name_list)
+            same_real(new_name_list, name_list)
+        # keep the representative first
+        name_list[:] = new_name_list + [
+            i for i in name_list if i not in new_name_list
+        ]
         self.same_list.append(name_list)
 
     def get(self, name, val_in_fit=True):
